@@ -304,10 +304,14 @@ class BaseState(ABC):
 
         if isinstance(self.index, int):
             assert isinstance(self.envelope, Envelope)
-            return self.envelope.measure_POVM(operators, self)
+            return self.envelope.measure_POVM(
+                operators, self, destructive=destructive
+            )
         if isinstance(self.index, list) or isinstance(self.index, tuple):
             assert isinstance(self.composite_envelope, CompositeEnvelope)
-            return self.composite_envelope.measure_POVM(operators, self)
+            return self.composite_envelope.measure_POVM(
+                operators, self, destructive=destructive
+            )
 
         assert isinstance(self.expansion_level, ExpansionLevel)
         while self.expansion_level < ExpansionLevel.Matrix:
